@@ -13,7 +13,7 @@ from hypothesis import strategies as st
 KINDS = ["gen", "coro", "agen", "func"]
 TARGET_FORMS = ["none", "name", "attr", "nested_attr", "sub", "subname", "call_sub", "tuple", "list", "star",
                 "star_mid", "nested_unpack", "walrus", "arith", "kwcall", "slice", "sub_chain", "attr_sub", "call_args",
-                "star_first", "tuple_attr_sub", "global_name"]
+                "star_first", "tuple_attr_sub", "global_name", "maybe_attr", "maybe_sub", "maybe_unpack"]
 JUMPS = ("ret", "retk", "retv", "raise", "break", "continue")
 
 
